@@ -286,6 +286,7 @@ def r7_key_order(ctx):
         ev = AEval(funcs=funcs, consts=consts or {})
         ev.mut_builtins = {"next_key": next_key, "next_value": next_value, "next_value_seed": next_value}
         ev.builtins = {"push_key": lambda rv, a: UNIT, "pop_key": lambda rv, a: C("None")}
+        ev.error_ctor_names = ("missing_field", "duplicate_field", "custom", "invalid_length", "unknown_field")
         for pre in ("serde::de::Error::", "de::Error::", "Error::", "A::Error::"):
             for nm in ("missing_field", "duplicate_field", "custom", "invalid_length", "unknown_field"):
                 ev.path_builtins[pre + nm] = lambda a, nm=nm: C(nm, *a[:1])
